@@ -166,7 +166,9 @@ Definition with_call (P : tid -> op -> list event -> res -> list event -> bool)
 
 (** ** C01: exactly-once delivery *)
 
-Definition chk_C01_nodup (e : env) (tr : list event) : bool := pairwise_disj (cov e tr).
+(** no position is delivered twice, and every delivered position is a position of the source *)
+Definition chk_C01_nodup (e : env) (tr : list event) : bool :=
+  pairwise_disj (cov e tr) && iv_within (e_len e) (cov e tr).
 
 (** once the end has been reported and no call is pending, the deliveries tile the source *)
 Definition chk_C01_noloss (e : env) (tr : list event) : bool :=
@@ -177,11 +179,13 @@ Definition chk_C01 (e : env) (tr : list event) : bool :=
 
 (** ** C02: index fidelity *)
 
+(** a non-empty run is the values of the positions [i, i + r_cnt) of the source, all of them positions of
+    the source: [i] is the index the run reports, or, for a run that reports no index (the value-only
+    spellings of a pull, the plain loops), the position of its first value *)
 Definition run_idx_ok (e : env) (r : run) : bool :=
-  match r_idx r with
-  | Some i => (r_cnt r =? 0) || (r_val r =? val_of e i)
-  | None => true
-  end.
+  (r_cnt r =? 0) ||
+  let i := match r_idx r with Some i => i | None => pos_of e (r_val r) end in
+  (r_val r =? val_of e i) && (i + r_cnt r <=? e_len e).
 
 Definition res_runs (r : res) : list run :=
   match r with
@@ -481,10 +485,15 @@ Definition loop_panic_ok (cr : option N) (r : res) : bool :=
   | _ => true
   end.
 
+(** the documented panic of a chunk size of zero *)
+Definition is_chunkzero (r : res) : bool :=
+  match r with RPanic PkChunkZero _ => true | _ => false end.
+
+(** a loop with chunk size zero panics with the documented panic, and only with that one *)
 Definition ev_C12 : tid -> res -> list drops -> list event -> bool :=
   fun t r _ tl =>
     match split_call t tl with
-    | Some (Loop l c cr, _) => if c =? 0 then is_panic r else loop_shape_ok l r && loop_panic_ok cr r
+    | Some (Loop l c cr, _) => if c =? 0 then is_chunkzero r else loop_shape_ok l r && loop_panic_ok cr r
     | _ => true
     end.
 
@@ -614,9 +623,6 @@ Definition chk_no_panic (tr : list event) : bool := negb (has_panic tr).
 
 (** ** C16: no panic except the documented ones (chunk size zero), which must happen; a chunk pull of
     size zero delivers nothing *)
-Definition is_chunkzero (r : res) : bool :=
-  match r with RPanic PkChunkZero _ => true | _ => false end.
-
 Definition ev_C16 : tid -> res -> list drops -> list event -> bool :=
   fun t r _ tl =>
     match split_call t tl with
